@@ -37,7 +37,7 @@ struct Stats {
   std::chrono::steady_clock::time_point t0 = std::chrono::steady_clock::now();
 };
 Stats& g = *new Stats;  // leaked on purpose: used from atexit / death callbacks
-constexpr size_t kDistinctCap = 6000000;
+size_t kDistinctCap = 1500000;  // per process (~150 MB under ASan); beyond it the count is a lower bound.  enum mode (one process) uses 8 M
 constexpr size_t kMaxSamples = 12;
 
 std::string& g_out_dir = *new std::string;
@@ -271,7 +271,12 @@ int main(int argc, char** argv) {
     char** fargv = argv + 1;
     fargv[0] = argv[0];
     atexit([] { write_stats(); });
+#ifdef VF_NO_FUZZER
+    fprintf(stderr, "this build has no libFuzzer driver (replay-only build for valgrind)\n");
+    return 2;
+#else
     return LLVMFuzzerRunDriver(&fargc, &fargv, fuzz_cb);
+#endif
   }
   if (__sanitizer_set_death_callback) __sanitizer_set_death_callback(death_callback);
 
@@ -311,6 +316,7 @@ int main(int argc, char** argv) {
     return 0;
   }
   if (g_mode == "enum") {
+    kDistinctCap = 8000000;
     uint64_t bad = 0;
     bool has = property_enumerate([&](const std::vector<uint8_t>& v) {
       Case c = eval(v.data(), v.size(), false);
